@@ -1,18 +1,21 @@
 ---- MODULE MC_FsConfine ----
-(* Finite instances of FsConfine.tla: every name of up to MaxSeg segments over the ten segment kinds,     *)
-(* relative and absolute, at every lookup site; for the image site additionally every set of pre-existing *)
-(* candidate files and one or two exports of the same name.                                               *)
+(* Finite instances of FsConfine.tla: every name of up to MaxSeg segments over the thirteen segment kinds *)
+(* at every lookup site (an absolute name is spelled with an empty - or NUL-only - first segment; the     *)
+(* explicit "absolute" flag is explored at the image site, where names are shorter); for the image site   *)
+(* additionally every set of pre-existing candidate files and one or two exports of the same name.        *)
 EXTENDS FsConfine
 CONSTANTS MaxSeg, MaxSegImage
 
 NoDev == {}
 SeqsUpTo(n) == UNION {[1..m -> Seg] : m \in 0..n}
-NamesUpTo(n) == {[abs |-> a, segs |-> s] : a \in BOOLEAN, s \in SeqsUpTo(n)}
-AllNames == NamesUpTo(MaxSeg)
+NamesUpTo(n, A) == {[abs |-> a, segs |-> s] : a \in A, s \in SeqsUpTo(n)}
+AllNames == NamesUpTo(MaxSeg, {FALSE})
 AllCMapSites == {"enc", "cmapname", "usecmap", "regord"}
 NoSites == {}
 AllImageCases == {[init |-> i, draws |-> d] : i \in SUBSET {-1, 0, 1}, d \in 1..2}
 FewImageCases == {[init |-> {}, draws |-> 2], [init |-> {-1, 1}, draws |-> 2]}
 NoImageCases == {}
-ImageNames == NamesUpTo(MaxSegImage)
+HalfImageCases == {[init |-> i, draws |-> 2] : i \in SUBSET {-1, 0, 1}}
+ImageNames == NamesUpTo(MaxSegImage, BOOLEAN)
+ImageNamesRel == NamesUpTo(MaxSegImage, {FALSE})
 ====
